@@ -185,6 +185,7 @@ def draw_cfg(rnd, spec, tier):
 
 def gen_case(rnd, tier, index):
     knobs = wbgen.draw_knobs(rnd)
+    knobs['gadget'] = 0.1
     spec = wbgen.generate(rnd, knobs)
     cfg = draw_cfg(rnd, spec, tier)
     n_ops = rnd.choice((3, 5, 8, 12, 20, 30))
